@@ -133,7 +133,14 @@ def d_unit_and_monitor(ctx, n):
     dunit.eval_d_unit(u, results)
 
 
+def pre_build(ctx):
+    import gen_units
+    gen_units.pre_build(ctx, "translate_driver")
+
+
 def run(ctx):
+    import gen_units
+    gen_units.g_unit(ctx, "translate_driver")
     k_unit(ctx)
     d_unit_and_monitor(ctx, 90 if ctx.quick else 600)
 
